@@ -37,7 +37,8 @@ MANIFEST = {
             'forward flag is observed on the real AgentComponent / '
             'ClientComponent.advance.'
             '  Third session: the forward flag published by advance() is observed over generated things (single/bulk, tasks bound to a pilot or not, pilots, every state, other keyword arguments).'
-            '  Two threads (of one component or of two components of the process) advance different things with different forward flags at the same time (LINE perturbation of advance/publish): every update is published exactly once with its own flag.',
+            '  Two threads (of one component or of two components of the process) advance different things with different forward flags at the same time (LINE perturbation of advance/publish): every update is published exactly once with its own flag.'
+            '  One registry lookup of one side may fail once while the side wires itself: the side refuses to start, or every rule still holds.',
     'note': 'transport is the in-memory shim (one total order per pubsub, no '
             'loss): PUB/SUB slow-joiner loss of real ZMQ is outside the check; '
             'the proxy is a shared pubsub as in proxy.py.'}
